@@ -136,6 +136,10 @@ def rule_sz(S):
                                        for x in f.walk(v['init'])):
                     size_clamped[v['name']] = size_clamped.get(v['name'], True) and clamped
         if nd['k'] == 'BinaryOperator' and nd.get('op') == '=' and root_var(f, f.ch(nd)[0]) == names.get('v_align'):
+            rhs = f.ch(nd)[1]
+            if any(x['k'] in CALL_KINDS and (x.get('cq') or '').startswith('std::max') for x in f.walk(rhs)) and \
+                    any(x['k'] == 'DeclRefExpr' and x.get('id') == names.get('v_align') for x in f.walk(rhs)):
+                return (True, fs)            # v_align = std::max(v_align, minimum)
             if cv_through(f, f.ch(nd)[1]) is not None or R.var_decl_init(f, root_var(f, f.ch(nd)[1])) is not None:
                 return (True, fs)
         if nd['k'] in CALL_KINDS and nd.get('cq') == 'operator new' and len(call_args(f, nd)) == 2:
